@@ -224,6 +224,35 @@ func runProperty(id string, pc *PropConfig, repo string, overlay map[string][]by
 	for range items {
 		<-done
 	}
+	if overlay == nil {
+		// A timeout on a heavily loaded machine (several checks running side by side) is not a verdict: the few
+		// obligations that timed out are tried once more, two at a time, with three times the limit.
+		var again []item
+		for _, it := range items {
+			if r := it.ob.Result; r != nil && !it.ob.ExpectSat && r.Status == "timeout" {
+				again = append(again, it)
+			}
+		}
+		if len(again) > 0 && len(again) <= 6 {
+			slow := &vc.Solver{Dir: smtDir, Timeout: 3 * timeout, Jobs: 1, Seed: seed, Cross: false}
+			sem2 := make(chan struct{}, 2)
+			done2 := make(chan struct{}, len(again))
+			for _, it := range again {
+				sem2 <- struct{}{}
+				go func(it item) {
+					defer func() { <-sem2; done2 <- struct{}{} }()
+					first := it.ob.Result
+					slow.SolveAll(it.em, []*vc.Obligation{it.ob})
+					if it.ob.Result == nil || it.ob.Result.Status != "unsat" {
+						it.ob.Result = first
+					}
+				}(it)
+			}
+			for range again {
+				<-done2
+			}
+		}
+	}
 	res.SolveSecs = time.Since(t1).Seconds()
 	return res
 }
